@@ -39,7 +39,7 @@ pub fn parse<'a>(token: &'a tokenizer::Token) -> Option<Element<'a>> {
                     |(mut pairs, mut state), (pos, current_char)| {
                         match state {
                             State::NameBegin => match current_char {
-                                ' ' | '\n' => {}
+                                ' ' | '\n' | '\r' => {}
                                 '=' => state = State::ParseError,
                                 '"' => state = State::ParseError,
                                 '\'' => state = State::ParseError,
@@ -48,7 +48,7 @@ pub fn parse<'a>(token: &'a tokenizer::Token) -> Option<Element<'a>> {
                                 }
                             },
                             State::Name(start) => match current_char {
-                                ' ' | '\n' => {
+                                ' ' | '\n' | '\r' => {
                                     pairs.push((&target[start..pos], None));
                                     state = State::NameEnd;
                                 }
@@ -59,14 +59,14 @@ pub fn parse<'a>(token: &'a tokenizer::Token) -> Option<Element<'a>> {
                                 _ => {}
                             },
                             State::NameEnd => match current_char {
-                                ' ' | '\n' => {}
+                                ' ' | '\n' | '\r' => {}
                                 '=' => state = State::ValueBegin,
                                 _ => {
                                     state = State::Name(pos);
                                 }
                             },
                             State::ValueBegin => match current_char {
-                                ' ' | '\n' => {}
+                                ' ' | '\n' | '\r' => {}
                                 '"' => {
                                     state = State::ValueWithDoubleQuote(pos + 1);
                                 }
@@ -88,7 +88,7 @@ pub fn parse<'a>(token: &'a tokenizer::Token) -> Option<Element<'a>> {
                                 }
                             }
                             State::ValueWithNoQuote => {
-                                if current_char == ' ' || current_char == '\n' {
+                                if matches!(current_char, ' ' | '\n' | '\r') {
                                     state = State::NameBegin
                                 }
                             }
